@@ -9,7 +9,7 @@ usage: tools/seedintake.py <ID> <name> <demo-path-relative-to-worktree> '<go tes
 import os, sys, subprocess, tempfile, shutil, json, re
 
 ID, name, demo, demoargs, needs = sys.argv[1:6]
-src = '/tmp/seedwt/' + ID
+src = os.environ.get('SEEDBASE', '/tmp/seedwt') + '/' + ID
 env = dict(os.environ, GOFLAGS='-mod=mod', GOPROXY='off', GOSUMDB='off', GOTOOLCHAIN='local')
 tmp = tempfile.mkdtemp(prefix='verifseedchk-')
 wt = os.path.join(tmp, 'go-internal')
